@@ -83,6 +83,7 @@ SpellingsC17(a, K) == {Text(a, Flatten3(Spl), {}) : Spl \in EscapeChoices(a, K)}
 (* C18: classes - the plain text plus every combination of at most K variations (structural ones and escapes at the
    first character of the first segment / first value / fragment) *)
 EscSites(a) == (IF a.segs # <<>> THEN {<<<<"seg", 1>>, 1>>} ELSE {})
+               \cup (IF a.query # None /\ Get(a.query) # <<>> /\ Last(Get(a.query))[1] # <<>> THEN {<<<<"name", Len(Get(a.query))>>, 1>>} ELSE {})   \* a NAME: sort order
                \cup (IF a.query # None /\ Get(a.query) # <<>> /\ Get(a.query)[1][2] # <<>> THEN {<<<<"val", 1>>, 1>>} ELSE {})
                \cup (IF a.frag # None THEN {<<<<"frag", 0>>, 1>>} ELSE {})
 EscVariations(a) == EscSites(a) \X {"up", "low", "nest", "nest2"}
